@@ -10,7 +10,9 @@
 (*   sweep   proposals of pg.geno.Sweeping ; hassweep                      *)
 (*   recov   <<r, pending, num_proposals after recover, proposals after a  *)
 (*           fresh Sweeping recovered a history of r proposals whose last  *)
-(*           `pending` rewards are None>>                                  *)
+(*           `pending` rewards are None, past-the-end record>>             *)
+(*   sweep_end  past-the-end record of the plain sweep: <<outcomes of 3    *)
+(*           more propose() calls, a second iteration, num_proposals>>     *)
 (*   nexts   <<tree, next tree | <<"x",0,<<>>>> >> from freshly built DNAs *)
 (*   resume  <<position, list(iter[position].iter_dna())>> or <<0, <<>>>>  *)
 (*   probes  <<label, tree as built, validate ok, bind ok>>                *)
@@ -56,6 +58,14 @@ IterLaws(i, o, vt) ==
   \o LET badrec == { j \in 1..Len(o.recov) :
                        o.recov[j][3] # o.recov[j][1] \/ o.recov[j][4] # SubSeq(it, o.recov[j][1] + 1, n) } IN
      SeqIf(badrec # {}, Fail(i, "sweeping_after_recover", o.recov[Min(badrec \cup {Len(o.recov)})]))
+  \* an exhausted sweeper stays exhausted (`done` is absorbing in the odometer): polling it again raises
+  \* StopIteration every time, iterating it again yields nothing, and it has made exactly n proposals
+  \o LET ends == (IF o.hassweep /\ o.sweep_end[3] # -1 THEN <<o.sweep_end>> ELSE <<>>)
+                  \o [j \in 1..Len(o.recov) |-> o.recov[j][5]]
+         badend == { j \in 1..Len(ends) : \/ \E k \in 1..Len(ends[j][1]) : ends[j][1][k] # NoNext
+                                          \/ ends[j][2] # <<>>
+                                          \/ ends[j][3] # n }
+     IN SeqIf(badend # {}, Fail(i, "sweeping_exhausted_stays_exhausted", ends[Min(badend \cup {Len(ends)})]))
   \o SeqIf(o.resume[1] > 0 /\ o.resume[2] # SubSeq(it, o.resume[1] + 1, n), Fail(i, "iter_resumes_after", o.resume[1]))
 
 \* Why was an invalid tree accepted?  "neg": it is a valid tree except that some indices are negative
